@@ -32,6 +32,45 @@ impl Wake for WakeFlag {
     }
 }
 
+/// Two wakers that share one data pointer and differ only in their vtable
+/// (like the "local" and "remote" wakers some executors build on one task
+/// object): `Waker::will_wake` tells them apart, a comparison of the data
+/// pointers does not.
+pub struct Twin {
+    pub sides: [Arc<WakeFlag>; 2],
+}
+
+unsafe fn twin_clone_0(p: *const ()) -> std::task::RawWaker {
+    unsafe { Arc::increment_strong_count(p.cast::<Twin>()) };
+    std::task::RawWaker::new(p, &TWIN_VT[0])
+}
+unsafe fn twin_clone_1(p: *const ()) -> std::task::RawWaker {
+    unsafe { Arc::increment_strong_count(p.cast::<Twin>()) };
+    std::task::RawWaker::new(p, &TWIN_VT[1])
+}
+unsafe fn twin_wake_0(p: *const ()) {
+    let t = unsafe { Arc::from_raw(p.cast::<Twin>()) };
+    t.sides[0].wake_by_ref();
+}
+unsafe fn twin_wake_1(p: *const ()) {
+    let t = unsafe { Arc::from_raw(p.cast::<Twin>()) };
+    t.sides[1].wake_by_ref();
+}
+unsafe fn twin_wake_ref_0(p: *const ()) {
+    unsafe { &*p.cast::<Twin>() }.sides[0].wake_by_ref();
+}
+unsafe fn twin_wake_ref_1(p: *const ()) {
+    unsafe { &*p.cast::<Twin>() }.sides[1].wake_by_ref();
+}
+unsafe fn twin_drop(p: *const ()) {
+    drop(unsafe { Arc::from_raw(p.cast::<Twin>()) });
+}
+
+static TWIN_VT: [std::task::RawWakerVTable; 2] = [
+    std::task::RawWakerVTable::new(twin_clone_0, twin_wake_0, twin_wake_ref_0, twin_drop),
+    std::task::RawWakerVTable::new(twin_clone_1, twin_wake_1, twin_wake_ref_1, twin_drop),
+];
+
 /// Wakers of one task.
 pub struct TaskWakers {
     pub task: u32,
@@ -39,6 +78,8 @@ pub struct TaskWakers {
     pub generation: u32,
     /// Keeps replaced wakers alive so late wakes through them are counted.
     pub old: Vec<Arc<WakeFlag>>,
+    /// Set while the task's wakers are the two sides of a twin.
+    pub twin: Option<(Arc<Twin>, usize)>,
 }
 
 impl TaskWakers {
@@ -53,12 +94,47 @@ impl TaskWakers {
             }),
             generation: 0,
             old: Vec::new(),
+            twin: None,
         }
+    }
+
+    /// Replace the waker by its twin: same data pointer, other vtable.
+    pub fn replace_by_twin(&mut self) {
+        self.generation += 1;
+        let flag = |task, generation| {
+            Arc::new(WakeFlag {
+                fired: AtomicU32::new(0),
+                task,
+                generation,
+                stale: AtomicU32::new(0),
+            })
+        };
+        let (twin, side) = match self.twin.take() {
+            Some((t, side)) => (t, 1 - side),
+            None => {
+                // The current waker becomes side 1 (stale), the new one side 0.
+                let t = Arc::new(Twin {
+                    sides: [flag(self.task, self.generation), flag(self.task, self.generation)],
+                });
+                (t, 0)
+            }
+        };
+        let new = twin.sides[side].clone();
+        new.fired.store(0, Ordering::Release);
+        new.stale.store(0, Ordering::Release);
+        twin.sides[1 - side].stale.store(1, Ordering::Release);
+        let old = std::mem::replace(&mut self.current, new);
+        old.stale.store(1, Ordering::Release);
+        self.old.push(old);
+        self.twin = Some((twin, side));
+        stats::inc(C::probe_waker_replaced);
+        stats::inc(C::probe_waker_twin);
     }
 
     /// Replace the waker by a fresh one (the task moved to another executor
     /// slot); the old one becomes stale.
     pub fn replace(&mut self) {
+        self.twin = None;
         self.generation += 1;
         let new = Arc::new(WakeFlag {
             fired: AtomicU32::new(0),
@@ -73,6 +149,11 @@ impl TaskWakers {
     }
 
     pub fn waker(&self) -> Waker {
+        if let Some((twin, side)) = &self.twin {
+            let raw = std::task::RawWaker::new(Arc::into_raw(twin.clone()).cast(), &TWIN_VT[*side]);
+            // SAFETY: the vtable functions above uphold the RawWaker contract.
+            return unsafe { Waker::from_raw(raw) };
+        }
         Waker::from(self.current.clone())
     }
 
